@@ -24,7 +24,7 @@ pub struct ArchM {
     pub slot_gens: Vec<u32>,
     pub preset: bool,
     /// last value of the public `Archetype::version()` and the removal count at that time
-    pub pub_ver: Option<(u64, u64)>,
+    pub pub_ver: Option<(gecs::version::ArchetypeVersion, u64)>,
     pub created_ev: Vec<Bits>,
     pub destroyed_ev: Vec<Bits>,
 }
